@@ -1,6 +1,6 @@
 //! Parallel processing for DBC files
 
-use crate::{DbcHeader, FieldType, Record, RecordSet, Result, Schema, StringBlock, Value};
+use crate::{DbcHeader, Error, FieldType, Record, RecordSet, Result, Schema, StringBlock, Value};
 use rayon::prelude::*;
 use std::io::{Cursor, Read, Seek, SeekFrom};
 use std::sync::{Arc, Mutex};
@@ -12,6 +12,17 @@ pub fn parse_records_parallel(
     schema: Option<&Schema>,
     string_block: Arc<StringBlock>,
 ) -> Result<RecordSet> {
+    // The header is supplied by the caller and untrusted: all records must lie
+    // inside `data` before a slot is allocated for each of them
+    let records_size = header.record_count as u64 * header.record_size as u64;
+    let available = (data.len() as u64).saturating_sub(DbcHeader::SIZE as u64);
+    if records_size > available || (header.record_count > 0 && header.record_size == 0) {
+        return Err(Error::OutOfBounds(format!(
+            "{} records of {} bytes do not fit in the {} bytes after the header",
+            header.record_count, header.record_size, available
+        )));
+    }
+
     // Create a vector to hold the records
     let records: Arc<Mutex<Vec<Option<Record>>>> =
         Arc::new(Mutex::new(vec![None; header.record_count as usize]));
